@@ -67,6 +67,8 @@ ALPHABET = [
     ["add", "CO", "[C-]#[O+]"],
     ["remove", "CO"],
     ["remove", "O"],                        # no entry has this formula (it is water's SMILES)
+    ["extract", ["CCO", "COC", "O", "C1CC", "CCO"]],   # automatic extraction: isomers share a formula, one invalid, one repeated
+    ["extract", ["[NH4+]", "O=C=O", "[Na+].[Cl-]"]],
 ]
 STARTS = ["empty", "rules_manager", "automated_rules", "foreign_records", "dataframe"]
 
@@ -108,6 +110,9 @@ def gen_plan(base_seed, i, tier):
                 if rng.random() < 0.1:
                     s = rng.choice(["C1CC", "xx", "C(C)(C)(C)(C)C", ""])
                 ops.append(["add", f, s])
+            elif u < 0.6:
+                k = rng.randint(1, 5)
+                ops.append(["extract", [rng.choice(COMPOUNDS)[1] if rng.random() < 0.85 else rng.choice(["C1CC", "xx", "CCO", "COC"]) for _ in range(k)]])
             elif u < 0.7:
                 k = rng.randint(1, 4)
                 ops.append(["bulk", [list(rng.choice(COMPOUNDS)) if rng.random() < 0.8 else ["Bad%d" % rng.randint(0, 3), "C1CC"] for _ in range(k)]])
@@ -154,7 +159,7 @@ def run_history(start, ops, start_db=None):
         return True
 
     def check(step, op):
-        db = mgr.database
+        db = mgr_box[0].database
         got = [(e.get("formula"), e.get("smiles")) for e in db]
         if got != model:
             vs.append(oracles.V("C19", "database_differs_from_model", op[0], "start=%s after step %d %r: database %r, model %r" % (start, step, op, got[-4:], model[-4:])))
@@ -182,8 +187,10 @@ def run_history(start, ops, start_db=None):
                 vs.append(oracles.V("C19", "composition_wrong", op[0], "start=%s after step %d %r: entry %s/%s records %r, true composition %r charge %d" % (start, step, op, e["formula"], e["smiles"], comp, want, truth[1])))
         return True
 
+    mgr_box = [mgr]
     with runner.quiet():
         for step, op in enumerate(ops):
+            mgr = mgr_box[0]
             before = copy.deepcopy(mgr.database)
             if op[0] == "add":
                 ok = model_add(op[1], op[2])
@@ -221,6 +228,25 @@ def run_history(start, ops, start_db=None):
                     got_rej = None
                 if got_rej is not None and [(e.get("formula"), e.get("smiles")) for e in got_rej] != [(e["formula"], e["smiles"]) for e in want_rejected]:
                     vs.append(oracles.V("C19", "bulk_rejected_list_wrong", "bulk", "start=%s step %d %r returned rejected=%r, expected %r" % (start, step, op, got_rej, want_rejected)))
+            elif op[0] == "extract":
+                from rdkit import Chem
+                from rdkit.Chem import rdMolDescriptors
+                from synrbl.SynRuleImputer.auto_extract_rules import AutomaticRulesExtraction
+
+                for smi in op[1]:
+                    m = Chem.MolFromSmiles(smi) if isinstance(smi, str) else None
+                    f = rdMolDescriptors.CalcMolFormula(m) if m is not None else None
+                    if model_add(f, smi):
+                        acc += 1
+                    else:
+                        rej += 1
+                try:
+                    ext = AutomaticRulesExtraction(existing_database=mgr.database, n_jobs=1, verbose=0)
+                    ext.add_new_entries({"smiles": list(op[1])})
+                    extracted = ext.extract_rules()
+                    mgr = RuleImputeManager(extracted)
+                except Exception as e:
+                    vs.append(oracles.V("C19", "extraction_raised", type(e).__name__, "start=%s step %d %r raised %r" % (start, step, op, e)))
             else:
                 for k, (f, s) in enumerate(model):
                     if f == op[1]:
@@ -230,6 +256,7 @@ def run_history(start, ops, start_db=None):
                     mgr.remove_entry(op[1])
                 except Exception as e:
                     vs.append(oracles.V("C19", "remove_raised", type(e).__name__, "start=%s step %d %r raised %r" % (start, step, op, e)))
+            mgr_box[0] = mgr
             if not check(step, op) or len(vs) > 3:
                 break
     return vs, acc, rej
